@@ -76,6 +76,8 @@ type Op struct {
 	RetCCF bool              `json:"retccf,omitempty"`  // ReturnValuesOnConditionCheckFailure=ALL_OLD
 	Spec   *TableSpec        `json:"spec,omitempty"`    // createtable
 	Chg    []IndexChange     `json:"changes,omitempty"` // updatetable
+	Defs   [][2]string       `json:"defs,omitempty"`    // updatetable: attribute definitions (name, type) declared explicitly by the request
+	NoDefs bool              `json:"nodefs,omitempty"`  // updatetable: do NOT declare the key attributes of created indexes (they may have been declared by an earlier request)
 	Ix     *IndexSpec        `json:"ix,omitempty"`      // addindex (helper; S keys only)
 	Batch  []BatchEntry      `json:"batch,omitempty"`
 	Gets   []BatchEntry      `json:"gets,omitempty"` // batchget: Table + Del(=key)
